@@ -132,7 +132,16 @@ func runC16(c *wk.Ctx) {
 				bad = true
 				continue
 			}
-			// write through the view is visible in the buffer and vice versa
+			// the upper layer views end with the decoded packet: bytes after the IPv4 total length / IPv6 payload length are link
+			// layer padding inside the frame, at no layer's decoded offsets
+			if v.name != "Ether" && v.name != "SrcAddr.MAC" && v.name != "DstAddr.MAC" && v.off+len(v.b) > ref.End {
+				c.Viol("zerocopy:"+v.name+":beyond-packet", fmt.Sprintf("%s ends at %d, the decoded packet ends at %d (frame has %d bytes)", v.name, v.off+len(v.b), ref.End, len(b)), cs())
+				bad = true
+				continue
+			}
+			if ref.End < len(b) {
+				c.Obs("views_checked_on_padded_frames", 1)
+			}
 			last := len(v.b) - 1
 			v.b[last] ^= 0xff
 			seen := b[v.off+last] == f.B[v.off+last]^0xff
